@@ -43,7 +43,9 @@ ACTIVITIES = {
     "callback_service": ("c = channel.gateway.newchannel()\nchannel.send(c)\nc.setcallback(lambda item: None)\ndel c\n"
                          "c2 = channel.gateway.newchannel()\nc2.setcallback(lambda item: None, endmarker=None)\ndel c2\nchannel.send('started')\n"),
     # the initiator keeps sending large frames to this worker (see main): whenever it disappears, a frame is in flight
-    "inbound_flood": "channel.setcallback(lambda item: None)\nchannel.send('started')\nimport time\ntime.sleep(100000)\n",
+    # (the consumer is slower than the sender, so the sender sits blocked in the middle of a frame nearly all the time:
+    # a writer that never has to wait is only killed between two write calls, i.e. between frames)
+    "inbound_flood": "import time\nchannel.setcallback(lambda item: time.sleep(0.02))\nchannel.send('started')\ntime.sleep(100000)\n",
     "stopped": "channel.send('started')\nchannel.receive()\n",
     "killed": "channel.send('started')\nchannel.receive()\n",
 }
